@@ -35,10 +35,11 @@ from cflib.crtp.crtpstack import CRTPPacket
 from vf.explore import Inconclusive, Yield
 from vf.harness import Harness
 
-FUNCTIONS = ['cflib.crazyflie:Crazyflie.send_packet', 'cflib.crazyflie:Crazyflie._no_answer_do_retry',
+FUNCTIONS = ['cflib.crazyflie:_IncomingPacketHandler.run', 'cflib.crazyflie:Crazyflie.send_packet', 'cflib.crazyflie:Crazyflie._no_answer_do_retry',
              'cflib.crazyflie:Crazyflie._check_for_answers', 'cflib.crazyflie:Crazyflie.close_link',
              'cflib.crazyflie:Crazyflie.open_link', 'cflib.crazyflie:Crazyflie._link_error_cb',
-             'cflib.crtp:get_link_driver', 'cflib.crtp.crtpstack:CRTPPacket.__init__', 'cflib.utils.callbacks:Caller.call']
+             'cflib.crtp:get_link_driver', 'cflib.crtp.usbdriver:UsbDriver.connect', 'cflib.crtp.usbdriver:UsbDriver.send_packet',
+             'cflib.crtp.usbdriver:UsbDriver.close', 'cflib.crtp.crtpstack:CRTPPacket.__init__', 'cflib.utils.callbacks:Caller.call']
 STUBS = ['cflib.crazyflie.Timer -> virtual timer (records start/cancel; expires only when the harness says so; a cancelled '
          'or expired timer never runs its callback)',
          'cflib.crtp.CLASSES -> [recording driver] (real get_link_driver instantiates and connects it; one instance = one session; '
@@ -206,6 +207,9 @@ class Driver:
             hook()          # something happens on another thread while this (blocking) driver call has not returned yet
 
     def receive_packet(self, wait=0):
+        q = self.__dict__.setdefault('rxq', [])
+        if q:
+            return q.pop(0)
         raise Yield()
 
     def close(self):
@@ -262,6 +266,7 @@ class CheckedLock:
 
 # concrete requests for the session-centred harnesses: same port/channel, nested expected replies
 CONCRETE = [(2, 1, (1,)), (2, 1, (1, 7)), (2, 1, (1, 7, 9))]
+FREE_PORT = 9        # a CRTP port no cflib subsystem listens on (dispatch mode: the library's own services must not react)
 
 
 _REAL_DRIVERS = [('cflib.crtp.radiodriver', 'RadioDriver', True), ('cflib.crtp.usbdriver', 'UsbDriver', False),
@@ -294,7 +299,9 @@ def h_history(sym):
     reqs = []
     timeouts = B.get('timeouts', (None,))
     for i in range(P):
-        if B.get('concrete'):
+        if B.get('concrete') == 'same':
+            port, chan, exp = FREE_PORT, 1, (1,)          # the same request issued again (back to back)
+        elif B.get('concrete'):
             port, chan, exp = CONCRETE[i]
         else:
             # header: concrete; whether a later request shares the header of request 0 is a solver choice
@@ -306,7 +313,17 @@ def h_history(sym):
     sym.apply_known()
     cf = CF()
     cf._send_lock = CheckedLock()
-    st = dict(cur=None, nsess=0, nrx=0, nfire=0, closing=None)
+    st = dict(cur=None, nsess=0, nrx=0, nfire=0, closing=None, nsent=0)
+
+    def on_port_packet(pk):
+        # an application callback for the reply's port that, when the solver says so, issues the next request from inside
+        # the dispatch of the reply (param/mem code does this: the next read is sent from the callback of the previous answer)
+        if st.pop('resend_now', False) and st['nsent'] < P and st['cur'] is not None:
+            do_send(reqs[st['nsent']])
+            st['nsent'] += 1
+            sym.goal('request-sent-from-reply-callback')
+    if B.get('dispatch'):
+        cf.add_port_callback(FREE_PORT, on_port_packet)
 
     # ---- observation helpers (oracle side)
     def new_tx():
@@ -469,7 +486,10 @@ def h_history(sym):
                 sym.goal('stale-timer-expired-in-later-session')
 
     def do_rx(k):
-        if B.get('rxhdr', 'byte') == 'byte':
+        if B.get('dispatch'):
+            rport, rlink, rchan = FREE_PORT, sym.int(f'rxlink{k}', 0, 3), sym.int(f'rxchan{k}', 0, 3)
+            hdr = rport * 16 + rlink * 4 + rchan
+        elif B.get('rxhdr', 'byte') == 'byte':
             hdr = sym.int(f'rxh{k}', 0, 255)
             rport, rchan = hdr // 16, hdr % 4
         else:       # the same 256 values, composed from port / link bits / channel (cheaper arithmetic)
@@ -492,7 +512,16 @@ def h_history(sym):
                     best = r
         env.tag = None
         st['closing'] = None
-        cf.packet_received.call(pk)
+        if B.get('dispatch'):
+            # through the real dispatcher thread body (all-packet callbacks, then port callbacks), one packet per activation
+            if best is not None:
+                best['pending'] = False
+                best['answered'] = True
+            from vf.env.base import step
+            cf.link.__dict__.setdefault('rxq', []).append(pk)
+            assert step(cf.incoming) == 'yield', 'dispatcher thread ended'
+        else:
+            cf.packet_received.call(pk)
         tx, tm = new_tx(), new_timers()
         assert tx == [], 'transmission caused by an arriving packet'
         assert tm == [], 'timer created by an arriving packet'
@@ -508,8 +537,8 @@ def h_history(sym):
     # ---- history
     if B.get('start_open', True):
         do_open()
-    nsent = 0
     for k in range(NEV):
+        nsent = st['nsent']
         menu = []
         if SEND in kinds and nsent < P and (st['cur'] is not None or B.get('send_closed', False)):
             menu.append((SEND, nsent))
@@ -540,10 +569,10 @@ def h_history(sym):
         kind, arg = menu[sym.choice(f'ev{k}', len(menu))]
         if kind == SEND:
             do_send(reqs[arg])
-            nsent += 1
+            st['nsent'] += 1
         elif kind == FASTSEND:
             do_send(reqs[arg], fast=True)
-            nsent += 1
+            st['nsent'] += 1
         elif kind == FIRE:
             st['nfire'] += 1
             do_fire(arg, ('event', k))
@@ -557,6 +586,8 @@ def h_history(sym):
             do_fire(arg, ('event', k))
         elif kind == RX:
             st['nrx'] += 1
+            if B.get('cb_send') and st['nsent'] < P:
+                st['resend_now'] = sym.choice(f'cbsend{k}', 2) == 1
             do_rx(k)
         elif kind == OPEN:
             do_open()
@@ -598,6 +629,89 @@ DELAYED = [
             note='a retry timer whose callback is delayed past the arrival of the answer / the close (the window in which '
                  'threading.Timer.cancel() comes too late): no retransmission, and the send lock is released'),
 ]
+DELAYED.append(
+    Harness('callback-send', h_history,
+            quick=dict(p=2, concrete='same', events=5, kinds=(SEND, FIRE, RX), nr=True, sessions=1, max_rx=2, dispatch=True, cb_send=True),
+            thorough=dict(p=3, concrete='same', events=6, kinds=(SEND, FIRE, RX, CLOSE, OPEN), nr=True, sessions=2, max_rx=3, dispatch=True,
+                          cb_send=True),
+            goals=('request-sent-from-reply-callback', 'retransmitted', 'answered'), timeout=(600, 1800),
+            note='packets arrive through the real _IncomingPacketHandler.run; a port callback may issue the same request again from '
+                 'inside the dispatch of its reply (the new request is pending and retried like any other)'))
+
+# ---------------------------------------------------------------------------------------------------------------------
+# "nothing is ever transmitted on a closed link" at the driver: the real UsbDriver on a fake USB handle whose control transfers
+# may fail (cable pulled) at solver-chosen points
+
+def h_usb_closed(sym):
+    import cflib.crtp.usbdriver as usbmod
+    from cflib.crtp.usbdriver import UsbDriver
+    handles = []
+    fault = sym.choice('fault', 4)          # 0 none, 1 leaving CRTP-over-USB mode fails, 2 closing the device fails, 3 both calls fail
+
+    class FakeCfUsb:
+        def __init__(self, devid=0):
+            self.dev = object()
+            self.written = []
+            self.log = []
+            self.closed_by_driver = False
+            handles.append(self)
+
+        def set_crtp_to_usb(self, on):
+            self.log.append(('crtp', on))
+            if not on and fault in (1, 3) and len(handles) == 1:
+                raise IOError('control transfer failed: device gone')
+
+        def send_packet(self, data):
+            self.written.append((tuple(data), self.closed_by_driver))
+
+        def receive_packet(self):
+            return ()
+
+        def close(self):
+            self.log.append(('close',))
+            if fault in (2, 3) and len(handles) == 1:
+                raise IOError('device gone')
+
+        def scan(self):
+            return []
+    saved = usbmod.CfUsb
+    usbmod.CfUsb = FakeCfUsb
+    try:
+        errors = []
+        d = UsbDriver()
+        d.connect('usb://0', None, errors.append)
+        n1 = sym.choice('n1', 3)
+        for i in range(n1):
+            d.send_packet(CRTPPacket(0x21, [sym.int(f'a{i}', 0, 255)]))
+        h1 = handles[0]
+        assert [w[0][0] for w in h1.written] == [CRTPPacket(0x21).header] * n1, 'packets submitted on the open link are written to the device'
+        d.close()
+        h1.closed_by_driver = True
+        # a sender that still holds the driver object (bootloader, a thread past its link check) sends after the close
+        n2 = sym.choice('n2', 3)
+        for i in range(n2):
+            d.send_packet(CRTPPacket(0x31, [i]))
+        assert all(not late for (_, late) in h1.written), 'a packet was written to the USB device after the link had been closed'
+        assert len(h1.written) == n1, 'a packet was written to the USB device after the link had been closed'
+        if n2:
+            sym.goal('send-after-close')
+        if fault:
+            sym.goal('close-with-usb-fault')
+        # the same driver object (and a fresh one) can be connected again, and then transmits on the new handle only
+        d2 = d if sym.choice('reuse', 2) else UsbDriver()
+        d2.connect('usb://0', None, errors.append)
+        d2.send_packet(CRTPPacket(0x41, [7]))
+        assert len(handles) == 2 and [w[0][0] for w in handles[1].written] == [CRTPPacket(0x41).header] and len(h1.written) == n1, \
+            'after a reconnect packets go to the new device handle only'
+        d2.close()
+        sym.goal('reconnected')
+    finally:
+        usbmod.CfUsb = saved
+
+
+DELAYED.append(Harness('usb[closed link]', h_usb_closed, goals=('send-after-close', 'close-with-usb-fault', 'reconnected'), timeout=(120, 300),
+                       symbolic=False, note='fault point, packet counts and driver reuse are solver-chosen alternatives (no data-dependent branch)'))
+
 _MATCH_GOALS = ('answered', 'retransmitted', 'non-matching-packet')
 _SESSION_GOALS = ('reopened', 'retransmitted', 'answered', 'no-timer-on-reliable-link', 'link-down-with-pending-request',
                   'reopened-after-pending-request-dropped')
